@@ -11,7 +11,7 @@ pub fn generate(family: &str, seed: u64) -> Program {
 }
 
 fn sub_direct(read: bool) -> SubCfg {
-    SubCfg { kind: SubKind::Direct, read_state: read, gate: None, sleep_ms: 0, shared: false }
+    SubCfg { kind: SubKind::Direct, read_state: read, gate: None, sleep_ms: 0, shared: false, ..Default::default() }
 }
 
 /// family mw: middleware verdict matrix
@@ -26,8 +26,10 @@ pub fn mw(seed: u64) -> Program {
     // some programs let a middleware dispatch synchronously from before_reduce: the queue is then
     // large enough that the reducer thread can never block on itself
     let sync_dispatch = g.rng.chance(25);
-    let cap = if sync_dispatch { 16 } else { g.rng.pick(&CAPS) };
-    let builder = g.canonical_builder("mw", cap, Policy::Block, &reds, &mws);
+    // ... or the store has a drop policy (then nothing ever waits for room, however small the queue)
+    let sync_policy = if sync_dispatch && g.rng.chance(40) { g.rng.pick(&[Policy::DropOldest, Policy::DropLatest]) } else { Policy::Block };
+    let cap = if sync_policy != Policy::Block { g.rng.pick(&[1usize, 2]) } else if sync_dispatch { 16 } else { g.rng.pick(&CAPS) };
+    let builder = g.canonical_builder("mw", cap, sync_policy, &reds, &mws);
     let stores = vec![StoreCfg { builder, droppable: false, stepper: None, ctor: 0 }];
     let mut subs = vec![];
     let mut main = vec![Op::Build { store: 0 }];
@@ -38,7 +40,7 @@ pub fn mw(seed: u64) -> Program {
         regs += 1;
     }
     if g.rng.chance(30) {
-        subs.push(SubCfg { kind: SubKind::Selector, read_state: false, gate: None, sleep_ms: 0, shared: false });
+        subs.push(SubCfg { kind: SubKind::Selector, read_state: false, gate: None, sleep_ms: 0, shared: false, ..Default::default() });
         main.push(Op::AddSub { store: 0, sub: subs.len() - 1, reg: regs });
         regs += 1;
     }
